@@ -81,6 +81,13 @@ Flush ==
   /\ sink' = Flushed(sink, buffer) /\ buffer' = <<>> /\ bufBytes' = 0 /\ hasHeader' = TRUE
   /\ UNCHANGED <<meta, epoch, appended, okMeta, open>>
 
+(* flush() when the sink has accepted the block's bytes and then fails in ITS flush(): the error is returned; the
+   block is in the sink and no longer pending (it must not be written a second time) *)
+FlushSinkFails ==
+  /\ Step(<<"flush-sinkfail">>)
+  /\ sink' = Flushed(sink, buffer) /\ buffer' = <<>> /\ bufBytes' = 0 /\ hasHeader' = TRUE
+  /\ UNCHANGED <<meta, epoch, appended, okMeta, open>>
+
 (* extend / extend_from_slice / extend_ser: append each value (with its auto-flushes), then flush *)
 ExtendOk(vs) ==
   /\ Step(<<"extend", vs, "ok">>)
@@ -129,7 +136,7 @@ Reopen ==
   /\ UNCHANGED <<sink, meta, epoch, appended, okMeta, blockSize>>
 
 Next == \/ \E v \in Ids : AppendOk(v)
-        \/ AppendRejected \/ AppendEncodeFails \/ Flush
+        \/ AppendRejected \/ AppendEncodeFails \/ Flush \/ FlushSinkFails
         \/ \E a, b \in Ids : ExtendOk(<<a, b>>)
         \/ \E a \in Ids : ExtendStopsAtBad(<<a>>) \/ ExtendStopsAtBad(<<>>)
         \/ \E k \in Keys : AddUserMetadata(k)
